@@ -105,11 +105,11 @@ def pair_items(firsts, rng):
         rev = (j // 2) % 2 == 1
         order = (lambda lst: list(reversed(lst))) if rev else (lambda lst: lst)
         if a.needs or (firsts is not None and j % 2):
-            items.append((a.name, order(names_all), ("L1", "L2")))
+            items.append((a.name, order(names_all), ("L1", "L2", "L3")))
         else:
             items.append((a.name, order(names_early), ()))
         if firsts is None and not a.needs:
-            items.append((a.name, order(names_all), ("L1", "L2")))
+            items.append((a.name, order(names_all), ("L1", "L2", "L3")))
     return items
 
 
